@@ -124,8 +124,16 @@ def g_cred(rng, allow_custom=False) -> dict:
     return {"k": "custom", "v": tx(g_text(rng))}
 
 
+# result codes that agree modulo 2^8 / 2^16 / 2^32 / 2^64 with one another or with a defined code (all drawn within one process: whatever the
+# library remembers about one of them must not show in another)
+CONGRUENT_CODES = [127 + 2**32, 127 - 2**32, 2**32 - 1, -1 - 2**32, 2**64 - 1, 4096 + 2**32, 4096 - 2**32, 2**32, -2**32, 49 + 2**32, 14 + 2**32, 14 - 2**32,
+                   80 + 256, 10 + 65536, 2 + 2**64]
+
+
 def g_result(rng) -> dict:
-    code = rng.choice([0, 1, 2, 10, 14, 49, 80, 9, 81, 4096, 127, 128, -1, -129, 2**31]) if rng.random() < 0.9 else g_int(rng)
+    r0 = rng.random()
+    code = rng.choice([0, 1, 2, 10, 14, 49, 80, 9, 81, 4096, 127, 128, -1, -129, 2**31]) if r0 < 0.8 else rng.choice(CONGRUENT_CODES) if r0 < 0.92 \
+        else g_int(rng)
     refs = None
     r = rng.random()
     if r < 0.2:
